@@ -483,6 +483,29 @@ def run(ctx):
     ctx.count('mapping_iterations_in_conversion_chain', n_iter)
     if not any(f.rule == 'C05.R8' for f in ctx.findings):
         ctx.ok('C05.R8', ', '.join(CHAIN), '%d mapping iterations select by None tests or not at all' % n_iter)
+    # ---------------- R9 numbers are stored in exact column types
+    ctx.rule('C05.R9', 'every Column of the pie classes that holds a number uses an exact integer type (Integer / BigInteger / an Integer-backed type decorator): no Numeric, Float, REAL or DECIMAL column - SQLite stores those as floating point, so large integers (split-key prime field sizes, lengths) would come back rounded')
+    INEXACT = {'Numeric', 'Float', 'REAL', 'DECIMAL', 'NUMERIC', 'FLOAT', 'Double', 'DOUBLE', 'DOUBLE_PRECISION'}
+    n_cols = 0
+    for rel in ('kmip/pie/objects.py', 'kmip/pie/sqltypes.py'):
+        t9 = src.tree(rel)
+        for c9 in ast.walk(t9):
+            if isinstance(c9, ast.Call) and (call_name(c9) or '').split('.')[-1] == 'Column':
+                n_cols += 1
+                for x in ast.walk(c9):
+                    nm = x.attr if isinstance(x, ast.Attribute) else (x.id if isinstance(x, ast.Name) else None)
+                    if nm in INEXACT:
+                        ctx.fail('C05.R9', '%s|column %s|%s' % (rel, U(c9.args[0])[:40] if c9.args else '?', nm), '%s:%s' % (rel, c9.lineno),
+                                 'column %s is declared with the inexact type %s: integers beyond 2**53 are rounded when stored in SQLite' % (U(c9.args[0])[:40] if c9.args else '?', nm))
+        for cl9 in [x for x in ast.walk(t9) if isinstance(x, ast.ClassDef)]:
+            for a9 in cl9.body:
+                if isinstance(a9, ast.Assign) and any(isinstance(tg, ast.Name) and tg.id == 'impl' for tg in a9.targets):
+                    nm = (dotted(a9.value) or U(a9.value)).split('.')[-1]
+                    if nm in INEXACT:
+                        ctx.fail('C05.R9', '%s|%s.impl|%s' % (rel, cl9.name, nm), '%s:%s %s' % (rel, a9.lineno, cl9.name), 'type decorator %s is backed by the inexact type %s' % (cl9.name, nm))
+    ctx.count('pie_columns', n_cols, 30)
+    if not any(f.rule == 'C05.R9' for f in ctx.findings):
+        ctx.ok('C05.R9', 'kmip/pie/objects.py, kmip/pie/sqltypes.py', 'all %d columns use exact types' % n_cols)
     # ---------------- R7 operations that only read leave the loaded instance untouched
     ctx.rule('C05.R7', 'only Activate, Revoke, Destroy and the attribute operations (Set/Modify/DeleteAttribute) modify an object loaded from the store; every other handler (Get, GetAttributes, GetAttributeList, Locate, the cryptographic-use operations, DeriveKey on its base objects, ...) leaves the loaded instance untouched - a dirty instance is written out by the next commit in the same batch')
     WRITERS = {'_process_activate', '_process_revoke', '_process_destroy', '_process_set_attribute', '_process_modify_attribute', '_process_delete_attribute'}
